@@ -341,9 +341,9 @@ def correspond(ctx):
     lines, expect = [], []
     d0 = g.Decls(ctx.rng, 0)
     run_context(ctx, d0, [(s, "fixed", []) for s in g.FIXED], lines, expect)
-    for i in range(1, ctx.n(9, 250) + 1):
+    for i in range(1, ctx.n(7, 250) + 1):
         d = g.Decls(ctx.rng, i)
-        run_context(ctx, d, g.gen_strings(ctx.rng, d, ctx.n(40, 60)), lines, expect, limit=ctx.n(30, 60))
+        run_context(ctx, d, g.gen_strings(ctx.rng, d, ctx.n(40, 60)), lines, expect, limit=ctx.n(26, 60))
     out = ctx.driver(lines)
     judge_model(ctx, out, expect)
 
